@@ -11,7 +11,7 @@
 (* evaluated after every instruction of every scenario.  bind/py shards    *)
 (* the items over several TLC processes.                                   *)
 (***************************************************************************)
-EXTENDS WasmExec, Json, IOUtils
+EXTENDS WasmExec, WasmValid, Json, IOUtils
 
 Items == ndJsonDeserialize(IOEnv.INFILE)
 MaxDepth == 40
@@ -63,7 +63,9 @@ Begin(n) ==
           [] op.op = "hostglobal" -> done([st EXCEPT !.globals = @ \o <<V(op.t, op.b)>>])
           [] op.op = "instantiate" ->
               LET s2 == Instantiate(M, st, op.binds)
-              IN  IF ~SegmentsInBounds(M, s2, Len(s2.insts)) THEN [IdleCfg(st) EXCEPT !.status = "undefined"]
+              IN  \* the properties speak about valid modules only: an invalid scenario is refused (an error of whoever produced it)
+                  IF ~Valid(M) THEN [IdleCfg(st) EXCEPT !.status = "invalid", !.trap = ModuleErr(M)]
+                  ELSE IF ~SegmentsInBounds(M, s2, Len(s2.insts)) THEN [IdleCfg(st) EXCEPT !.status = "undefined"]
                   ELSE IF M.start >= 0
                   THEN Invoke(M, IdleCfg(s2), Len(s2.insts), M.start, <<>>, FuelPerCall, MaxDepth)
                   ELSE done(s2)
